@@ -145,11 +145,15 @@ class World:
                 self.conn[ev["c"]]["handler"].send_message(M.GetProperties(version="1.7", device=f"m{ev['id']}", name=("n" * 70000 if ev.get("big") else None)))
             elif op == "complete":
                 k = self.conn[ev["c"]]
-                p = (k["stdout"] if k["kind"] == "tty" else k["writer"]).pending[ev["i"] - 1]
-                if ev["fail"]:
-                    p.fail(ConnectionResetError("peer went away"))
-                else:
-                    p.complete()
+                pend = (k["stdout"] if k["kind"] == "tty" else k["writer"]).pending
+                # (a scripted completion of an awaitable that this implementation does not have outstanding - e.g. because it
+                #  coalesces writes - is an environment step that cannot happen: nothing is done)
+                if 1 <= ev["i"] <= len(pend):
+                    p = pend[ev["i"] - 1]
+                    if ev["fail"]:
+                        p.fail(ConnectionResetError("peer went away"))
+                    else:
+                        p.complete()
             elif op == "tick":
                 asyncio.events._set_running_loop(None)
                 self.loop.tick()
